@@ -427,7 +427,7 @@ func (sc *specCtx) binary(e *CBin) Val {
 		if isU8(x.T) && isU8(y.T) {
 			return &Term{"(band8 " + x.S + " " + y.S + ")", "Int", rt}
 		}
-		return &Term{"(band " + x.S + " " + y.S + ")", "Int", rt}
+		return &Term{"(bandS " + x.S + " " + y.S + ")", "Int", rt}
 	case "|":
 		if s, ok := vc.bitConst(x, y, 64, true, func(v, p string) string { return "(ite (= (bitk " + v + " " + p + ") 0) " + p + " 0)" }); ok {
 			return &Term{s, "Int", rt}
@@ -435,7 +435,7 @@ func (sc *specCtx) binary(e *CBin) Val {
 		if isU8(x.T) && isU8(y.T) {
 			return &Term{"(bor8 " + x.S + " " + y.S + ")", "Int", rt}
 		}
-		return &Term{"(bor " + x.S + " " + y.S + ")", "Int", rt}
+		return &Term{"(borS " + x.S + " " + y.S + ")", "Int", rt}
 	case "^":
 		if s, ok := vc.bitConst(x, y, 64, true, func(v, p string) string { return "(ite (= (bitk " + v + " " + p + ") 0) " + p + " (- " + p + "))" }); ok {
 			return &Term{s, "Int", rt}
@@ -443,7 +443,7 @@ func (sc *specCtx) binary(e *CBin) Val {
 		if isU8(x.T) && isU8(y.T) {
 			return &Term{"(bxor8 " + x.S + " " + y.S + ")", "Int", rt}
 		}
-		return &Term{"(bxor " + x.S + " " + y.S + ")", "Int", rt}
+		return &Term{"(bxorS " + x.S + " " + y.S + ")", "Int", rt}
 	}
 	unsup("spec: operator %s", e.Op)
 	return nil
